@@ -20,7 +20,7 @@ STATIC = {
     "C03": {"use_props": ["C03p", "C01w"], "not_proved": ["C03p_roundtrip_strings is the string-level statement (hypotheses left: every ring span / branch length < 16^3, nesting depth < recursion budget, input length <= 10^4300); the last step from the decoded graph to the output SMILES string is C01w (writer = pre-order of the forest, atoms in index order) and is not composed with it into one theorem about the output string",
                                                    "aromatic inputs: kekulization is covered by C05 (sound given a perfect matching), not composed here"]},
     "C04": {"use_props": ["C03", "C10r"], "not_proved": ["C04_end_to_end (Props/C10r.lean) is the string-level statement; hypotheses as C03p_roundtrip_strings plus <= 99 rings"]},
-    "C05": {"use_props": ["C03p"], "not_proved": ["completeness (succeeds whenever an assignment exists) and atom-order independence: not theorems (false in general: finding F9); decided by bounded search",
+    "C05": {"use_props": ["C05c", "C03p"], "not_proved": ["completeness is proved for BIPARTITE delocalisation subgraphs (all rings even: C05_bipartite_complete, C05_bipartite_decides, C05_kekulize_complete_bipartite); for non-bipartite systems it is false in general (finding F9) and decided by bounded search, as is atom-order independence",
                            "unconditional soundness of find_perfect_matching is FALSE (C05_soundness_false, finding F9); proved: sound on bipartite graphs, sound whenever every augmenting path found is simple, kekulize sound given a perfect matching",
                            ]},
     "C06": {}, "C07": {"use_props": ["C01", "C08"],
